@@ -77,11 +77,13 @@ Record cfg : Type := {
                                    instead of the DSDL capacity literal *)
   guarded : bool;               (* every store that does not go through a checked primitive is preceded by a run-time bound *)
   ptr_clamp : bool;             (* _deserialize_composite forms &buffer[min(offset_bits / 8, capacity_bytes)] *)
+  bulk_on : bool;               (* arrays of bool / zero-cost primitives are moved by one CopyBits / GetBits call (C; not C++) *)
 }.
 
 Definition dyn_al (off : nat) : bool := off mod 8 =? 0.
 Definition std_cfg (le : bool) : cfg :=
-  {| ov := fun _ c => c; up_front := true; little := le; al := dyn_al; len_chk_storage := false; guarded := false; ptr_clamp := true |}.
+  {| ov := fun _ c => c; up_front := true; little := le; al := dyn_al; len_chk_storage := false; guarded := false; ptr_clamp := true;
+     bulk_on := true |}.
 Definition cap_ok (c : cfg) : Prop := forall e n, n <= ov c e n.
 (* the array length checks keep every index inside the storage *)
 Definition cap_sound (c : cfg) : Prop := len_chk_storage c = true \/ cap_ok c.
@@ -98,6 +100,7 @@ Definition zero_cost (c : cfg) (p : prim) : bool :=
 
 (* element width when the array is moved by one nunavutCopyBits / nunavutGetBits call *)
 Definition bulk (c : cfg) (e : ty) : option nat :=
+  if negb (bulk_on c) then None else
   match e with
   | TPrim PBool => Some 1
   | TPrim p => if zero_cost c p then Some (prim_bits p) else None
@@ -366,66 +369,9 @@ Definition obs_res (t : ty) (r : res (cobj * nat)) : res (val * nat) :=
 Definition ser_err_documented (e : derr) : bool := match e with ETooSmall | EBadLen | EBadTag => true | _ => false end.
 Definition des_err_documented (e : derr) : bool := match e with EBadLen | EBadTag | EBadHdr => true | _ => false end.
 
-(* =====================================================  C++ containers  ===================================================== *)
-(* _deserialize_variable_length_array (C++): [clear();] reserve(n); n x { T tmp = T(); decode(tmp); push_back(move(tmp)) }.
-   `clear_first` is read from the template by the translator (Generated/Gen_C04.v). *)
-Definition cpp_vla_des {A} (clear_first : bool) (current decoded : list A) : list A :=
-  (if clear_first then [] else current) ++ decoded.
 
-(* =====================================================  C++14 union emulation  ===================================================== *)
-(* VariantType of _fields_as_union.j2: tag_ + aligned storage.  Ghost state: `live` = the alternatives whose lifetime has begun and
-   not ended; `bad` counts destructor calls on an alternative that is not live.  `np i` = alternative i is not a primitive (has a
-   destructor call emitted).  Placement-new over the storage ends the lifetime of trivially destructible occupants only. *)
-Record ucell : Type := { utag : nat; ulive : list nat; ubad : nat }.
-
-Fixpoint remove_one (x : nat) (l : list nat) : list nat :=
-  match l with [] => [] | y :: r => if x =? y then r else y :: remove_one x r end.
-
-(* index the emitted `if (tag_ == <idx>)` compares against for alternative i:
-   unfiltered loop: loop.index0 = i;  filtered loop (the pre-fix template): the number of non-primitive alternatives before i *)
-Fixpoint count_np (np : list bool) (i : nat) : nat :=
-  match i, np with
-  | O, _ | _, [] => 0
-  | S i', b :: r => (if b then 1 else 0) + count_np r i'
-  end.
-
-Definition destroy_idx (unfiltered : bool) (np : list bool) (i : nat) : nat := if unfiltered then i else count_np np i.
-
-(* destroy_current(): one `if` per non-primitive alternative, in order *)
-Fixpoint destroy_from (unfiltered : bool) (np all : list bool) (i : nat) (c : ucell) : ucell :=
-  match np with
-  | [] => c
-  | b :: r =>
-      let c' := if b && (utag c =? destroy_idx unfiltered all i)
-                then (if existsb (Nat.eqb i) (ulive c)
-                      then {| utag := utag c; ulive := remove_one i (ulive c); ubad := ubad c |}
-                      else {| utag := utag c; ulive := ulive c; ubad := S (ubad c) |})
-                else c in
-      destroy_from unfiltered r all (S i) c'
-  end.
-Definition destroy_current (unfiltered : bool) (np : list bool) (c : ucell) : ucell := destroy_from unfiltered np np 0 c.
-
-(* placement new of alternative i: trivially destructible occupants end silently, others stay (= never destroyed: a leak) *)
-Definition construct (np : list bool) (i : nat) (c : ucell) : ucell :=
-  {| utag := utag c; ulive := i :: filter (fun j => nth j np false) (ulive c); ubad := ubad c |}.
-
-(* emplace<I>(): the order of the three statements is read from the template (destroy_first) *)
-Definition emplace (unfiltered destroy_first : bool) (np : list bool) (i : nat) (c : ucell) : ucell :=
-  let c1 := if destroy_first then destroy_current unfiltered np c else c in
-  let c2 := construct np i c1 in
-  {| utag := i; ulive := ulive c2; ubad := ubad c2 |}.
-
-(* VariantType(): tag_(0), zero storage, emplace<0>() *)
-Definition ctor (unfiltered destroy_first : bool) (np : list bool) : ucell :=
-  emplace unfiltered destroy_first np 0 {| utag := 0; ulive := []; ubad := 0 |}.
-
-(* set_x() / decode (set_x() then decode into it) / copy- and move-assignment from a cell holding alternative i: all are
-   destroy_current; construct i; tag_ = i *)
-Fixpoint run_ops (unfiltered destroy_first : bool) (np : list bool) (ops : list nat) (c : ucell) : ucell :=
-  match ops with
-  | [] => c
-  | i :: r => run_ops unfiltered destroy_first np r (emplace unfiltered destroy_first np i c)
-  end.
-
-(* ~VariantType() *)
-Definition dtor (unfiltered : bool) (np : list bool) (c : ucell) : ucell := destroy_current unfiltered np c.
+(* ---- check / access events of a template macro in textual order (scanned by tools/translators/gen_c04.py) ---- *)
+Inductive ev : Type := EvCheck | EvAccess.
+(* every access is preceded by a check (and there is one) *)
+Definition check_first (l : list ev) : bool :=
+  match l with EvCheck :: r => forallb (fun e => match e with EvAccess => true | EvCheck => true end) r | _ => false end.
